@@ -253,9 +253,14 @@ class Gen:
         n = self.length()
         lon, lat = self.positions(n)
         t = self.axis(n)
+        if n >= 2 and r.random() < 0.3:
+            # a fix repeated: the platform did not move, the speed is exactly 0 -- the one speed that can sit exactly
+            # on a threshold (0), with the other threshold below it
+            for i in r.sample(range(1, n), max(1, n // 4)):
+                lon[i], lat[i] = lon[i - 1], lat[i - 1]
         h = hops(lon, lat)
         sp = [h[i] // (t[i] - t[i - 1]) for i in range(1, n) if h[i] != NA]
-        pool = [0, 1, 3, 10, 100, 2000]
+        pool = [0, 0, 1, 3, 10, 100, 2000, -1]
         for s in sp:
             pool += [min(s, 2000), min(s + 1, 2000)]
         c = mk("speed", lon=lon, lat=lat, t=t, p={"st": [r.choice(pool), 1], "ft": [r.choice(pool), 1]})
